@@ -83,10 +83,11 @@ def floorNative (be : String) : UInt32 → UInt32 :=
   else if be == "fallback" || be == "fbmod" then Native.fallbackFloor
   else Native.floor
 
-/-- std's `rem_euclid` is `let r = self % rhs; if r < 0.0 { r + rhs.abs() } else { r }`, which agrees
-with micromath's on every input; libm re-exports the fallback's. -/
+/-- std, the fallback (since e9e07c1; re-exported by libm) and micromath all use
+`let r = x % m; if r < 0 { r + |m| } else { r }` (micromath with the test `r >= 0`); the two model
+functions return the same bits (`Props.C20.mm_rem_euclid_eq_std_algorithm`). -/
 def remEuclidModel (be : String) (x m : UInt32) : UInt32 :=
-  if be == "mm" || be == "std" then mmRemEuclid x m else remEuclid x m
+  if be == "mm" then mmRemEuclid x m else remEuclid x m
 
 /-- which `round_up_to_half` a configuration compiles, and with which `floor` -/
 def roundUpHalfModel (be : String) (x : UInt32) : UInt32 :=
@@ -122,16 +123,19 @@ def absSpec (be : String) (a : UInt32) (impl : UInt32) : Option (String × Strin
     | some r => if FloatSpec.isAbsOf q r then none else some (be ++ "-abs-wrong", s!"abs({ratApprox q}) = {ratApprox r}")
     | none => some (be ++ "-abs-wrong", s!"abs({ratApprox q}) = {hex8 impl}")
 
+/-- Domain: `x` finite, `m` finite and non-zero of either sign; the result is taken modulo `|m|`. -/
 def remSpec (be : String) (x m impl : UInt32) : Option (String × String) :=
   match toRat? x, toRat? m with
   | some xv, some mv =>
-    if mv ≤ 0 then none
-    else match toRat? impl with
+    if mv == 0 then none
+    else
+      let am := ratAbs mv
+      match toRat? impl with
       | none => some (be ++ "-rem-euclid-range", s!"rem_euclid({ratApprox xv}, {ratApprox mv}) = {hex8 impl}")
       | some r =>
-        if !FloatSpec.remRange mv r then
-          some (be ++ "-rem-euclid-range", s!"rem_euclid({ratApprox xv}, {ratApprox mv}) = {ratApprox r} outside [0, m]")
-        else if !FloatSpec.remCongruent xv mv r then
+        if !FloatSpec.remRange am r then
+          some (be ++ "-rem-euclid-range", s!"rem_euclid({ratApprox xv}, {ratApprox mv}) = {ratApprox r} outside [0, |m|]")
+        else if !FloatSpec.remCongruent xv am r then
           some (be ++ "-rem-euclid-congruence", s!"rem_euclid({ratApprox xv}, {ratApprox mv}) = {ratApprox r} is not congruent to x")
         else none
   | _, _ => none
@@ -183,10 +187,17 @@ def handle (case impl : List String) : Verdict :=
         | _, _ => "non-finite"
       let tags := ["rem_euclid", be, dom, "x-" ++ inputTag xb]
       match bits? i0 with
-      | none => (Verdict.mkDiff s!"unreadable output {i0}" tags).withSpec (dom == "m-pos") (be ++ "-rem-euclid-range") s!"no value: {i0}"
+      | none => (Verdict.mkDiff s!"unreadable output {i0}" tags).withSpec (dom == "m-pos" || dom == "m-neg") (be ++ "-rem-euclid-range") s!"no value: {i0}"
       | some ib =>
         let v := Verdict.ok tags
         let v := v.withDiff (!sameValue ib model) s!"model {hex8 model}"
+        -- "behave the same in no_std builds as in std builds": every back end uses std's algorithm
+        -- on exact `%`, so for finite x and finite non-zero m the value must be std's, exactly
+        let v := match bits? (impl.getD 1 ""), toRat? xb, toRat? mb with
+          | some sb, some _, some mv =>
+            v.withSpec (mv != 0 && !sameValue ib sb) (be ++ "-rem-euclid-differs-from-std")
+              s!"rem_euclid = {hex8 ib}, std gives {hex8 sb}"
+          | _, _, _ => v
         match remSpec be xb mb ib with
         | some (k, msg) => v.withSpec true k msg
         | none => v
@@ -355,6 +366,11 @@ def handle (case impl : List String) : Verdict :=
       | none => Verdict.mkDiff s!"unreadable output {i0}" tags
       | some ib =>
         let vd := (Verdict.ok tags).withDiff (!sameValue ib model) s!"model {hex8 model}"
+        -- exactly std's result in every configuration (max is never returned where std returns min)
+        let vd := match bits? (impl.getD 1 ""), toRat? ab, toRat? lb, toRat? hb with
+          | some sb, some _, some lv, some hv =>
+            vd.withSpec (lv < hv && !sameValue ib sb) (be ++ "-angle-wrap-differs-from-std") s!"wrap = {hex8 ib}, std gives {hex8 sb}"
+          | _, _, _, _ => vd
         match toRat? ab, toRat? lb, toRat? hb with
         | some av, some lv, some hv =>
           if lv < hv then
